@@ -7,7 +7,8 @@ from datetime import datetime
 
 import numpy as np
 from sympy.codegen.ast import Assignment, AddAugmentedAssignment
-from sympy import pycode, symbols, Function, Symbol, Expr, Number as SymNumber
+from sympy import symbols, Function, Symbol, Expr, Number as SymNumber
+from sympy.printing.pycode import PythonCodePrinter
 from sympy.codegen.ast import real, FunctionPrototype, FunctionDefinition, Return, FunctionCall as SymFuncCall
 from sympy.utilities.lambdify import _import, _module_present, _get_namespace
 from scipy.sparse import sparray
@@ -26,6 +27,22 @@ from Solverz.num_api.num_eqn import nAE, nFDAE, nDAE
 
 
 # %%
+
+class SolverzCodePrinter(PythonCodePrinter):
+    """
+    sympy prints a double-precision Float with 15 significant digits, which is not always enough to read the same
+    number back, e.g., 0.1 + 0.2 is printed as 0.3. Print the shortest string that round-trips instead.
+    """
+
+    def _print_Float(self, expr):
+        if expr._prec == 53 and expr.is_finite:
+            return repr(float(expr))
+        return super()._print_Float(expr)
+
+
+def pycode(expr, **settings):
+    return SolverzCodePrinter(settings).doprint(expr)
+
 
 def FunctionCall(name, args):
     if not isinstance(args, list):
